@@ -85,3 +85,18 @@ func H_DEV_RealFind(shape int) {
 	verifrt.Observe("err1", res.Error)
 	verifrt.Observe("one", one)
 }
+
+func H_DEV_Assoc(shape int) {
+	s := NewStore()
+	db := openReal(stubDialector{}, s, nil)
+	next := int64(10)
+	s.OnExec = func(text string, args []driver.Value) Result {
+		next += 10
+		return Result{LastID: next, Affected: 1}
+	}
+	o := Owner{Name: "o", Company: &Company{Name: "c"}, Profile: Profile{Bio: "b"}, Pets: []Pet{{Name: "p1"}, {Name: "p2"}}}
+	res := db.Create(&o)
+	verifrt.Observe("err", res.Error)
+	verifrt.Observe("log", s.Kinds())
+	verifrt.Observe("owner", o)
+}
